@@ -86,6 +86,17 @@ func genFraming(seed uint64, tier, variant string) any {
 	} else {
 		p.Opt.DisableCache = true
 	}
+	// commands that are written more than once: read-only commands are sent again after a connection reset; the second
+	// frame must be the command the caller built, like the first (large arguments included)
+	withRetry := !withCancel && sendbuf == 0 && r.IntN(2) == 0
+	p.Opt.DisableRetry = !withRetry
+	if withRetry {
+		p.Opt.RetryDelaysMs = []int{1, 5}
+		for i, n := 0, 1+r.IntN(3); i < n; i++ {
+			p.Faults = append(p.Faults, FaultSpec{Kind: pick(r, "reset", "eof", "reset-after-exec"), AtStep: r.IntN(120), NeedInflight: true, Pick: r.IntN(4)})
+		}
+	}
+	p.X["retry"] = withRetry
 	for ti := 0; ti < ntasks; ti++ {
 		ncalls := 2 + r.IntN(6)
 		var calls []CallSpec
@@ -134,6 +145,14 @@ func genFraming(seed uint64, tier, variant string) any {
 						l = r.IntN(64)
 					}
 					argv = append(argv, fmt.Sprintf("@gen:%d:%d", l, salt))
+				}
+				if withRetry {
+					if r.IntN(3) == 0 {
+						// one large argument (the sizes at which buffers and writes change their strategy)
+						salt++
+						argv = append(argv, fmt.Sprintf("@gen:%d:%d", pick(r, 4096, 65535, 65536, 70000, 100001), salt))
+					}
+					return CmdSpec{Argv: argv, Flag: "ro"}
 				}
 				return CmdSpec{Argv: argv}
 			}
@@ -304,7 +323,12 @@ func checkFraming(e *env) {
 			out.violate("C14", "reply-without-frame", "call for %s returned a reply but the server never decoded its frame", uid)
 		}
 	}
+	retry, _ := e.plan.X["retry"].(bool)
 	for uid, n := range seen {
+		if n > 1 && retry {
+			out.probe("command-written-more-than-once")
+			continue // read-only commands re-sent after a reset; every copy was compared above
+		}
 		if n > 1 {
 			out.violate("C14", "duplicate-frame", "command %s was decoded %d times", uid, n)
 		}
